@@ -69,6 +69,33 @@ func orderInsensitive(js []byte) (string, error) {
 	return string(b), nil
 }
 
+// stripExamples removes every "example" member from a canonical catalog text.
+func stripExamples(js string) string {
+	var v any
+	if json.Unmarshal([]byte(js), &v) != nil {
+		return js
+	}
+	var walk func(x any) any
+	walk = func(x any) any {
+		switch t := x.(type) {
+		case map[string]any:
+			delete(t, "example")
+			for k, e := range t {
+				t[k] = walk(e)
+			}
+			return t
+		case []any:
+			for i := range t {
+				t[i] = walk(t[i])
+			}
+			return t
+		}
+		return x
+	}
+	b, _ := json.Marshal(walk(v))
+	return string(b)
+}
+
 // c15-replay <tlc-output> [selftest]
 func c15Replay(args []string) *Result {
 	res := &Result{}
@@ -112,6 +139,10 @@ func c15Replay(args []string) *Result {
 			b, err2 := orderInsensitive(o.JSON)
 			if err1 != nil || err2 != nil {
 				res.mismatch("c15:shape", fmt.Sprint(err1, err2), replay)
+			} else if a != b && stripExamples(a) == stripExamples(b) {
+				// the entries differ only in generated "example" strings (known finding: examples of regex user types are
+				// drawn from a generator shared by the whole build, in the order the schemas are built)
+				res.mismatch("c15:example-depends-on-block-order", "only the generated example strings of the schemas depend on the order of the blocks", replay)
 			} else if a != b {
 				var av, bv any
 				_ = json.Unmarshal([]byte(a), &av)
